@@ -431,7 +431,8 @@ func (s *Session) onPreprocess(resp *rtsp.Response, req *rtsp.Request) (continue
 			req.Method == rtsp.MethodPause)
 	default:
 		continueProcess = !(req.Method == rtsp.MethodPlay ||
-			req.Method == rtsp.MethodRecord)
+			req.Method == rtsp.MethodRecord ||
+			req.Method == rtsp.MethodPause)
 	}
 
 	if !continueProcess {
